@@ -363,6 +363,18 @@ void run_big(const Plan &p, int count) {
     }
 }
 
+// the windowed binary-search routing path with Epsilon > EpsilonRecursive on levels of more than 2*EpsilonRecursive+3 segments
+template<typename K, size_t Eps, size_t EpsRec, typename F>
+void run_binary_path(const Plan &p, int count, size_t nmin) {
+    Rng rng(p.seed ^ 0xb1a ^ (Eps * 17 + EpsRec));
+    const std::vector<std::string> kinds = {"steps", "runs_uniform", "collinear"};
+    for (int i = 0; i < (p.tier == "quick" ? count : 3 * count); ++i) {
+        size_t n = nmin + rng.below(nmin / 2);
+        ExecPlan pl{kinds[(size_t) i % kinds.size()], n, 3 + (i % 2), 0, false, {"binary_path_many_segments", kinds[(size_t) i % kinds.size()]}, rng.next(), {}};
+        run_exec<K, Eps, EpsRec, F>(pl);
+    }
+}
+
 int main(int argc, char **argv) {
     Args a(argc, argv);
     install_crash_handlers();
@@ -389,6 +401,8 @@ int main(int argc, char **argv) {
     run_config<uint16_t, 1, 1, float>(p, 1);
     run_config<uint16_t, 16, 4, float>(p, 0);
 #elif PART == 1
+    run_binary_path<uint64_t, 32, 26, double>(p, 2, 12000);
+    run_binary_path<uint32_t, 64, 43, float>(p, 1, 30000);
     run_big<uint64_t, 16, 4, float>(p, 2);
     run_big<uint64_t, 2, 64, float>(p, 1);
     run_real_chunked<uint64_t, 4, 4, float>(p, p.tier == "quick" ? 1 : 6);
